@@ -2,7 +2,7 @@
 (***************************************************************************)
 (* C13: every request is answered; malformed input gets 4xx and reaches no *)
 (* mutating backend operation.  A request is                               *)
-(*   [srv, m, level, depth, ow, dest, ctype, body]                         *)
+(*   [srv, m, level, depth, ow, dest, ctype, body, cond]                   *)
 (* srv in dav | cal | card | principal; level = hierarchy level (for dav:  *)
 (* 0 root, 1 an existing file, 2 an existing collection, 3 absent);        *)
 (* header classes absent / valid values / "bad"; ctype none | xml |        *)
@@ -25,6 +25,8 @@ BadXml == {"emptyxml", "wrongroot", "truncated", "garbage"}
 NeedsXmlBody(r) == \/ r.m \in {"REPORT", "PROPPATCH"} /\ r.srv \in {"cal", "card"}
                    \/ r.m = "PROPPATCH" /\ r.srv = "dav"
 HeaderMalformed(r) ==
+  \* a conditional header whose value is not an entity tag, on the file server, with an existing resource to compare it with
+  \/ r.cond # "none" /\ r.srv = "dav" /\ r.m \in {"PUT", "DELETE"} /\ r.level \in {1, 2}
   \/ r.m \in {"PROPFIND", "COPY", "MOVE"} /\ r.depth = "bad" /\ r.srv # "principal"
   \/ r.m \in {"COPY", "MOVE"} /\ (r.ow = "bad" \/ r.dest \in {"missing", "bad"}) /\ r.srv # "principal"
 BodyMalformed(r) ==
